@@ -1,6 +1,7 @@
 package props
 
 import (
+	"go/types"
 	"fmt"
 	"strings"
 
@@ -266,41 +267,29 @@ func r062(c *an.Ctx) {
 	if fn := mustFunc(c, rule, resPkg, "Collection", "List"); fn != nil {
 		ok := true
 		n := 0
+		// every store into an element of a []proto.Message (the temporary of `append(result, x)` as well as
+		// `result[i] = x`) stores FilterClone(e.body) with the request's filter
 		an.Instrs(fn, func(in ssa.Instruction) {
-			call, isCall := in.(*ssa.Call)
-			if !isCall || an.CalleeName(call) != "builtin append" {
+			st, isSt := in.(*ssa.Store)
+			if !isSt {
 				return
 			}
-			if !strings.Contains(call.Type().String(), "proto.Message") && !strings.Contains(call.Type().String(), "ProtoMessage") {
+			ia, isIA := st.Addr.(*ssa.IndexAddr)
+			if !isIA {
+				return
+			}
+			et := ia.Type().(*types.Pointer).Elem().String()
+			if !strings.Contains(et, "proto.Message") && !strings.Contains(et, "ProtoMessage") {
 				return
 			}
 			n++
-			// appended values: elements of the variadic slice
-			for _, s := range an.Sources(call.Call.Args[1]) {
-				if sl, isSlice := s.(*ssa.Slice); isSlice {
-					s = sl.X
-				}
-				al, isAlloc := s.(*ssa.Alloc)
-				if !isAlloc {
+			if !filterCloneOf(st.Val, func(a ssa.Value) bool { return isFieldLoad(a, "body") }) {
+				ok = false
+				return
+			}
+			for _, v := range an.ValuesAt(st.Val) {
+				if fc, isFC := v.(*ssa.Call); isFC && !filterFromRequest(fc.Call.Args[0]) && an.CalleeName(fc) == filterCloneQ {
 					ok = false
-					continue
-				}
-				for _, u := range an.Referrers(al) {
-					if ia, isIA := u.(*ssa.IndexAddr); isIA {
-						for _, u2 := range an.Referrers(ia) {
-							if st, isSt := u2.(*ssa.Store); isSt {
-								if !filterCloneOf(st.Val, func(a ssa.Value) bool { return isFieldLoad(a, "body") }) {
-									ok = false
-								} else {
-									for _, v := range an.ValuesAt(st.Val) {
-										if fc, isFC := v.(*ssa.Call); isFC && !filterFromRequest(fc.Call.Args[0]) && an.CalleeName(fc) == filterCloneQ {
-											ok = false
-										}
-									}
-								}
-							}
-						}
-					}
 				}
 			}
 		})
